@@ -12,7 +12,7 @@ ID = 'C09'
 RULE = ('full product of strand x single/paired x soft-clip 0..6 x motif variant (exact, every single-base substitution '
         'incl. N, one-cycle shift, motif on the wrong end, two decoys) x allow_cycle_shift x check_motif x invert_strand x '
         'no_umi_cigar_processing for NlaIII; trimmed/untrimmed x strand x clip x R2 arrangement x invert_strand for CHIC; '
-        'non-trivial = reverse strand or clipped or non-exact motif; states = distinct (geometry, options) cases')
+        'non-trivial = clipped or non-exact motif or unusual R2 arrangement (every case is executed on both strands); states = distinct (geometry, options) cases')
 ASSUMPTIONS = [
     'reads are given in BAM orientation (reverse-strand reads reverse-complemented), as produced by an aligner',
     'check_motif=False is only combined with full-length motif geometries (nothing is "recognised" otherwise)',
@@ -301,7 +301,7 @@ def run_shard(shard, tier, acc):
         if j % n != i:
             continue
         viols, obs = (run_nla if kind == 'nla' else run_chic)(case)
-        nontriv = case['clip'] > 0 or case.get('variant', 'exact') != 'exact' or True
+        nontriv = case['clip'] > 0 or case.get('variant', 'exact') != 'exact' or case.get('r2') in ('same-strand', 'unmapped')
         lab = f"{kind}:{case.get('variant', case.get('trimmed'))}:fv={obs['forward'].get('valid')}:rv={obs['reverse'].get('valid')}"
         acc.case(case, transitions=2, execs=2, nontrivial=nontriv, outcome=lab)
         for sig, d in viols:
